@@ -457,7 +457,15 @@ def check_ranges(ctx, rep):
             lens = [c for c in p.calls if c[1] == 'alloc::vec::Vec::<T, A>::len']
             ok = v[0] == 'call' and v[1] == 'alloc::vec::Vec::<T, A>::len' and lens and p.calls.index(lens[0]) < p.calls.index(pushes[0]) \
                 and len(pushes) == 1
-            rep.ob(ok, 'R02.6', fn.path, 'new constant', 'returns constants.len() read before the single push: %s' % show(v), fn.loc())
+            if not ok and len(pushes) == 1:
+                # ... or `len() - 1` read after it
+                w = v
+                if w[0] == 'field' and w[2] == '0' and w[1][0] == 'binop' and w[1][1].endswith('WithOverflow'):
+                    w = ('binop', w[1][1][:-12], w[1][2], w[1][3])
+                if w[0] == 'binop' and w[1] == 'Sub' and int_of(w[3]) == 1 and w[2][0] == 'call' and w[2][1] == 'alloc::vec::Vec::<T, A>::len':
+                    after = [c for c in p.calls if c[1] == 'alloc::vec::Vec::<T, A>::len' and len(w[2]) > 3 and c[0] == w[2][3]]
+                    ok = bool(after) and p.calls.index(after[0]) > p.calls.index(pushes[0])
+            rep.ob(ok, 'R02.6', fn.path, 'new constant', 'returns constants.len() read before the single push (or len() - 1 read after it): %s' % show(v), fn.loc())
         else:
             from rules import c05 as _c05
             yielded = _c05._yielded_index(v, p.env)
